@@ -2,16 +2,17 @@ import Cpppo.Model.Wire
 import Cpppo.Model.Session
 import Cpppo.Driver.Logix
 /-!
-driver: `sess <fixed 0|1> <route> <routes> <maxBytes> <tags> <rand> <sessions>`
+driver: `sess <fixed 0|1> <route> <routes> <size|-> <maxBytes> <tags> <rand> <sessions>`
   route  = `*` (UCMM.route_path None) | `-` (falsy) | `port:link,…`
   routes = routing table keys `port:link,…` ("-" = none)
   sessions = connections joined by '!', each a list of frames
   tags   = as for `lgx`
   rand   = the values `random.randint` will deliver, joined by ',' ("-" = none)
-  frames = frames joined by ';' ("-" = none); frame = `<session>~<status>~<context hex>~<options>~<body>`
+  frames = frames joined by ';' ("-" = none); frame = `<session>~<status>~<context hex>~<options>~<payload length>~<body>`
   body   = R^proto^opts^<extra hex> | Rs^<hex> | U^<hex> | LS | LI | LF | LG | X^<cmd>^<hex>
          | S^<unit 0|1>^<iface>^<timeout>^<wrap>^q^<raw hex>^<request as for lgx>
          | S^<unit 0|1>^<iface>^<timeout>^<wrap>^k^<code>^<path>^<raw hex>
+         | S^<unit 0|1>^<iface>^<timeout>^<wrap>^c^<raw hex>^fo,<large>,<14 numbers>,<connection path> | …^fc,<5 numbers>,<path>
          | B^<unit 0|1>^<iface>^<timeout>^<type>:<hex>,…
   wrap   = d | u_<cls>_<ins>_<prio>_<ticks>_<route>
 answer: `<run> || <run>`: the stream served at once, and one frame per batch;
@@ -43,6 +44,15 @@ def parseItem (s : String) : Option (Nat × Bytes) :=
   | [t, h] => do pure (← t.toNat?, ← bytesOfHex h)
   | _ => none
 
+def parseCm (s : String) : Option CmReq :=
+  match splitOn s ',' with
+  | ["fo", lg, a, b, c, d, e, f, g, h, i, j, k, l, m, p] => do
+    pure (.fwdOpen (← parseBool lg) (← a.toNat?) (← b.toNat?) (← c.toNat?) (← d.toNat?) (← e.toNat?) (← f.toNat?)
+      (← g.toNat?) (← h.toNat?) (← i.toNat?) (← j.toNat?) (← k.toNat?) (← l.toNat?) (← m.toNat?) (← parsePath p))
+  | ["fc", a, b, c, d, e, p] => do
+    pure (.fwdClose (← a.toNat?) (← b.toNat?) (← c.toNat?) (← d.toNat?) (← e.toNat?) (← parsePath p))
+  | _ => none
+
 def parseBody (s : String) : Option Body :=
   match splitOn s '^' with
   | ["R", p, o, x] => do pure (.register (← p.toNat?) (← o.toNat?) (← bytesOfHex x))
@@ -55,6 +65,8 @@ def parseBody (s : String) : Option Body :=
   | ["X", c, h] => do pure (.unknownCmd (← c.toNat?) (← bytesOfHex h))
   | ["S", u, i, t, w, "q", raw, r] => do
     pure (.send (← parseBool u) (← i.toNat?) (← t.toNat?) (← parseWrap w) (.req (← parseReq r) (← bytesOfHex raw)))
+  | ["S", u, i, t, w, "c", raw, r] => do
+    pure (.send (← parseBool u) (← i.toNat?) (← t.toNat?) (← parseWrap w) (.cm (← parseCm r) (← bytesOfHex raw)))
   | ["S", u, i, t, w, "k", code, p, raw] => do
     pure (.send (← parseBool u) (← i.toNat?) (← t.toNat?) (← parseWrap w)
             (.unknown (← code.toNat?) (← parsePath p) (← bytesOfHex raw)))
@@ -64,8 +76,9 @@ def parseBody (s : String) : Option Body :=
 
 def parseFrame (s : String) : Option Frame :=
   match splitOn s '~' with
-  | [se, st, ctx, op, body] => do
-    pure { hdr := { session := ← se.toNat?, status := ← st.toNat?, context := ← bytesOfHex ctx, options := ← op.toNat? },
+  | [se, st, ctx, op, ln, body] => do
+    pure { hdr := { session := ← se.toNat?, status := ← st.toNat?, context := ← bytesOfHex ctx, options := ← op.toNat?,
+                    length := ← ln.toNat? },
            body := ← parseBody body }
   | _ => none
 
@@ -80,14 +93,17 @@ def showRun (r : Run) : String :=
 /-- sessions one after the other, each one frame per batch -/
 def serveSessionsSingly (cfg : Cfg) : Srv → List (List Frame) → List Run
   | _, [] => []
-  | s, fs :: rest => let r := serveBatches cfg s (fs.map fun f => [f]); r :: serveSessionsSingly cfg r.srv rest
+  | s, fs :: rest =>
+    let r := serveBatches cfg s (fs.map fun f => [f])
+    let s' := if r.end == .closed then r.srv else { r.srv with forwards := [] }
+    r :: serveSessionsSingly cfg s' rest
 
 def showRuns (rs : List Run) : String := " // ".intercalate (rs.map showRun)
 
 def handle : List String → Option String
-  | ["sess", fixed, route, routes, maxb, tags, rand, sessions] => do
+  | ["sess", fixed, route, routes, size, maxb, tags, rand, sessions] => do
     let fixed ← parseBool fixed
-    let cfg : Cfg := { route := ← parseRouteCfg route, routes := ← parseRoute routes }
+    let cfg : Cfg := { route := ← parseRouteCfg route, routes := ← parseRoute routes, size := ← optNat size }
     let maxb ← maxb.toNat?
     let specs ← (splitNonEmpty tags ',').mapM parseTag
     let d0 : Dev := { objs := [{ cls := router.1, ins := router.2, attrs := [] }], symbols := [], maxBytes := maxb }
